@@ -278,18 +278,26 @@ impl BaseBindingsGenerator for ZodBindingsGenerator {
 
         // Also collect types used in events
         let events = analyzer.get_discovered_events();
+        let mut event_types = std::collections::HashSet::new();
         for event in events {
-            let mut event_types = std::collections::HashSet::new();
             TypeCollector::collect_referenced_types_from_structure(
                 &event.payload_type_structure,
                 &mut event_types,
             );
+        }
 
-            // Add event payload types to used_structs
-            for type_name in event_types {
-                if let Some(struct_info) = discovered_structs.get(&type_name) {
-                    used_structs.insert(type_name.clone(), struct_info.clone());
-                }
+        // Payload types bring their own field types along, just like command types do
+        let mut event_closure = event_types.clone();
+        self.collector.discover_nested_dependencies(
+            &event_types,
+            discovered_structs,
+            &mut event_closure,
+        );
+
+        // Add event payload types (and what they reference) to used_structs
+        for type_name in event_closure {
+            if let Some(struct_info) = discovered_structs.get(&type_name) {
+                used_structs.insert(type_name.clone(), struct_info.clone());
             }
         }
 
